@@ -441,7 +441,14 @@ class Gen(object):
             self.features.add('unrelate')
             guard = N('IfNode', expression=N('UnaryOperationNode', operator='not_empty', operand=self.var(tmp)),
                       block=block([un]), elif_list=N('ElIfListNode', children=[]), else_clause=None)
-            return [sel, guard]
+            out = [sel, guard]
+            if t.flag():
+                # v is free on that end now: relate it again to a fresh partner (relate - unrelate - relate)
+                n, pre = self.create(env, hop[0])
+                out += pre + [N('RelateNode', from_variable_name=v, to_variable_name=n, rel_id='R%d' % hop[1],
+                                phrase=("'%s'" % hop[2]) if hop[2] else '')]
+                self.features.add('re-relate')
+            return out
         if k == 14:              # delete a fresh instance
             name, pre = self.create(env)
             env.drop(name)
